@@ -22,25 +22,6 @@ macro_rules! runner {
     ($name:ident, $G:ident, $bat:path) => {
         fn $name<Ix: IndexType>(ops: &[GOp], out: &mut Out) {
             type A<Ix> = Acyclic<$G<u32, u32, Ix>>;
-            let battery = |g: &A<Ix>| -> Vec<String> {
-                let mut v = Vec::new();
-                v.push(line("order", &g.nodes_iter().map(|n| n.index() as i64).collect::<Vec<_>>()));
-                let mut ps = Vec::new();
-                let mut maxp = 0usize;
-                for n in g.inner().node_indices() {
-                    ps.push(n.index() as i64);
-                    match catch_unwind(AssertUnwindSafe(|| g.get_position(n))) {
-                        Ok(p) => { ps.push(posnum(p)); maxp = maxp.max(posnum(p) as usize); }
-                        Err(_) => ps.push(-2),
-                    }
-                }
-                // the model's atpos range is max over the position map's keys
-                let keymax = { let all: Vec<_> = g.range(..).collect(); let _ = all; 0usize };
-                let _ = keymax;
-                v.push(line("pos", &ps));
-                v
-            };
-            let _ = &battery;
             let mut g: A<Ix> = Acyclic::new();
             let full = |g: &A<Ix>| -> Vec<String> {
                 let mut v = Vec::new();
